@@ -122,8 +122,8 @@ def api_cases(_=None):
   """Tag edits, update_callable, materialize_defaults, copy_with, assign, nested suspension."""
   viols = []
   n = 0
-  def bad(what, name):
-    viols.append(dict(what=what, sig='api', store=name, op='', api=name, kinds=[], hasdef=[]))
+  def bad(what, name, kind='other'):
+    viols.append(dict(what=what, sig='api', store=name, op='', api=name, vkind=kind, kinds=[], hasdef=[]))
   def fresh():
     return fdl.Config(pool.fa, 1, 2, 3, 4, k=5)
   here = THIS_FILE
@@ -166,7 +166,8 @@ def api_cases(_=None):
     for e in ne:
       if not e.location.filename.endswith(here):
         bad(f'{name}: edit attributed to {os.path.basename(e.location.filename)}:'
-            f'{e.location.line_number} instead of the caller ({here})', name)
+            f'{e.location.line_number} instead of the caller ({here})', name,
+            'location:' + os.path.basename(e.location.filename))
         break
     # suspended
     c2 = fresh()
@@ -241,7 +242,7 @@ def run(tier='quick', seed=0, nproc=16):
   res = common.pmap(check_sig, gen.shuffled([(s.kinds, s.hasdef) for s in gen.all_sigs(n)]), nproc)
   res.append(api_cases())
   return common.merge(
-      res, 'layerb.prop_C16', keyfn=lambda v: ('api:' + v['api']) if v.get('api') else None,
+      res, 'layerb.prop_C16', keyfn=lambda v: f"api:{v['api']}:{v.get('vkind')}" if v.get('api') else None,
       rule='every mutating edit of C03 (by name, index, negative index, VARARGS, slices incl. *args '
            'shifts) on every (signature <= %d, store): history invariant (ends with current value / '
            'DELETED / current tags), exactly one entry per changed stored value, fresh increasing '
